@@ -4,6 +4,7 @@ import Jwt.Lemmas.Json
 import Jwt.Lemmas.AlgFacts
 import Jwt.Props.C11
 import Jwt.Lemmas.PipelineJwk
+import Jwt.Lemmas.StrCmpCode
 /-!
 # C08 — JWK import preserves the key and its metadata
 
@@ -164,5 +165,14 @@ theorem C08_values_are_source (jwk : Json) (it : Item) (hit : it.error = false) 
     ((processValuesGen jwk).2.1 = false →
       ((processValuesGen jwk).2.2.2.2.2.2 = true ↔ ∃ s, (jwk.objGet [107, 105, 100]).bind Json.strVal = some s ∧ s ≠ [] ∧ (processValues jwk it).kid = some s)) :=
   processValues_generated jwk it hit
+
+
+/-- **Names are matched as a whole, by the source's comparison.**  The `alg`, `kty`, `use` and `key_ops` values of a JWK go
+through `jwt_strcmp`; as translated from jwt-memory.c it returns 0 exactly for equal strings, so a registered name with
+anything appended, cut short or in another case is not that name -/
+theorem C08_name_compare_is_source (a b : Bytes) :
+    Generated.StrCmpCode.jwtStrcmp (a.map UInt8.toNat) (b.map UInt8.toNat) = 0 ↔ a = b := by
+  rw [StrCmpCode.translated_agrees_with_model, jwtStrcmp_eq_zero_iff]
+
 
 end Jwt.Props.C08
